@@ -32,7 +32,7 @@ func (v *VerifModule) Handle(product string, rules []VerifRule, req *bfe_basic.R
 		}
 		list = append(list, AuthBasicRule{Cond: cond, UserPasswd: r.Users, Realm: r.Realm})
 	}
-	conf := AuthBasicConf{Version: "verif", Config: ProductRules{}}
+	conf := AuthBasicConf{Version: VerifVersion, Config: ProductRules{}}
 	if product != "" {
 		conf.Config[product] = &list
 	}
@@ -43,3 +43,7 @@ func (v *VerifModule) Handle(product string, rules []VerifRule, req *bfe_basic.R
 
 // VerifReadUserFile exposes readUserFile (the htpasswd-style user file loader).
 func VerifReadUserFile(filename string) (map[string]string, error) { return readUserFile(filename) }
+
+// VerifVersion is the Version string the hook puts into the conf it passes to ruleTable.Update
+// (reload histories use several).
+var VerifVersion = "verif"
